@@ -47,6 +47,22 @@ CLAIMS = {
             "size, each name used at most once and known, unused value < bin size.",
             "Exact integer arithmetic; names homogeneous per input.",
             "DESIGN.md 6/C05"),
+    "C06": ("exploration", "property-based testing with a cross-output-type consistency oracle (one call per output type; everything recomputed from the full partition output)",
+            "Any of the 19 algorithms on generated C01/C03/C05 inputs in five presentations is called once per output type in "
+            "prtpy.out (10 calls): each reported sum must equal the total value of the items of the bin with the same index, and "
+            "Sums, SortedSums, LargestSum, SmallestSum, ExtremeSums, Difference, BinCount, Partition and PartitionAndSums must "
+            "equal what is computed from the PartitionAndSumsTuple answer. Half of the cases use an algorithm that swaps or "
+            "bypasses the caller's bins-manager (cbldm, dp, bin_completion, ckk, snp, rnp, ilp).",
+            "Sums compared as a multiset (bin order is not part of the statement); exponential algorithms stay in their size envelope.",
+            "DESIGN.md 6/C06"),
+    "C07": ("exploration", "metamorphic property-based testing across five input presentations with misleading integer names",
+            "Each generated input is run as list, numpy array, dict with string names, dict with integer names deliberately ordered "
+            "differently from the values, and names + value function, for all 19 algorithms: the sorted sum vector must be identical "
+            "in all five, the named result must be a true partition / feasible packing / valid cover of the names, and the values of "
+            "the names must reproduce the reported sums index by index. A second leg draws inputs from 2-3 distinct values so that "
+            "tie-breaks by name would show.",
+            "Names homogeneous (all str or all int) and distinct; integer values.",
+            "DESIGN.md 6/C07"),
     "C14": ("exploration", "differential property-based testing against reference models transcribed from the documentation",
             "Each of the nine simple heuristics is compared with a direct transcription of its documented rule "
             "(pbt/refmodels.py) on up to 40 items incl. ties, exact fills and the class thresholds C/2, C/3: sorted bin "
